@@ -3,6 +3,7 @@ import json
 import os
 
 from core.engine import Property, F
+from core import lean
 from props import c19_run as R
 
 EVJSON = {"begin", "nextSeg", "skip", "spin", "raiseBody"}
@@ -138,6 +139,46 @@ class C19(Property):
     # ------------------------------------------------------------------ generation
     KEYSETS = None
 
+    def pre_build(self):
+        """translator step: constants of the lock table and the download semaphore, read with `ast` from the CURRENT source"""
+        import ast
+        repo = os.environ.get("COBA_REPO", "/repo")
+        vals = {"permits": None, "digest": None, "slots": None}
+
+        def num(node):
+            try:
+                return int(eval(compile(ast.Expression(node), "<c19>", "eval"), {"__builtins__": {}}, {}))
+            except Exception:
+                return None
+        try:
+            for node in ast.walk(ast.parse(open(os.path.join(repo, "coba", "multiprocessing.py"), encoding="utf-8").read())):
+                if isinstance(node, ast.Call) and isinstance(node.func, ast.Attribute) and node.func.attr in ("Semaphore", "BoundedSemaphore") and len(node.args) == 1:
+                    vals["permits"] = num(node.args[0])
+                if isinstance(node, ast.Call) and isinstance(node.func, ast.Attribute) and node.func.attr == "RawArray" and len(node.args) == 2:
+                    a = node.args[1]
+                    if isinstance(a, ast.BinOp) and isinstance(a.op, ast.Mult) and isinstance(a.left, ast.List):
+                        vals["slots"] = num(a.right)
+            for node in ast.walk(ast.parse(open(os.path.join(repo, "coba", "context", "cachers.py"), encoding="utf-8").read())):
+                if isinstance(node, ast.Assign) and len(node.targets) == 1 and isinstance(node.targets[0], ast.Attribute) and node.targets[0].attr == "_digest_size":
+                    vals["digest"] = num(node.value)
+        except Exception:
+            pass
+        ok = all(v is not None for v in vals.values())
+        body = ("-- GENERATED by harness/props/c19.py (pre_build) from coba/multiprocessing.py and coba/context/cachers.py on every run; do not edit.\n"
+                "namespace Coba.C19.Generated\n"
+                "/-- `spawn_context.Semaphore(n)` stored as `openml_semaphore` by CobaMultiprocessor -/\ndef openmlPermits : Nat := %d\n"
+                "/-- length of the shared `RawArray` CobaMultiprocessor hands to ConcurrentCacher -/\ndef lockTableSize : Nat := %d\n"
+                "/-- `ConcurrentCacher._digest_size` (bytes of the blake2b digest used as slot number) -/\ndef digestBytes : Nat := %d\n"
+                "def extracted : Bool := %s\nend Coba.C19.Generated\n"
+                % (vals["permits"] if ok else 3, vals["slots"] if ok else 65536, vals["digest"] if ok else 2, "true" if ok else "false"))
+        path = os.path.join(lean.LEAN_DIR, "CobaVerif", "Generated", "C19Consts.lean")
+        old = open(path, encoding="utf-8").read() if os.path.exists(path) else None
+        if old != body:
+            os.makedirs(os.path.dirname(path), exist_ok=True)
+            with open(path, "w", encoding="utf-8") as f:
+                f.write(body)
+        return ["C19 constants from source: %s%s" % (vals, "" if ok else " (NOT all extracted: source reshaped)")]
+
     def keysets(self):
         if C19.KEYSETS is None:
             (p0, p1), (q0, q1) = R.PAIRS[0], R.PAIRS[1]
@@ -173,7 +214,7 @@ class C19(Property):
                 st.pop()
                 continue
             if st and r < 38:
-                seg.append(["raise", "base"] if rng.chance(0.3) else ["raise"])
+                seg.append(["raise", rng.choice(["base", "KeyboardInterrupt", "KeyboardInterrupt", "SystemExit", "GeneratorExit"])] if rng.chance(0.4) else ["raise"])
                 return seg
             if not allowed:
                 seg.append(["exit"])
@@ -246,7 +287,25 @@ class C19(Property):
             progs.append(p)
         return {"kind": "mp", "keys": keys, "progs": progs, "parts": 2, "wiring": rng.chance(0.6)}
 
+    def gen_semsched_case(self, rng, tier):
+        n = rng.choice([2, 3, 3, 4])
+        progs = []
+        for _ in range(n):
+            prog = []
+            for _ in range(rng.choice([1, 1, 2, 3])):
+                order = rng.choice(["uncached", "uncached", "uncached", "during", "before"])
+                rd = {"order": order}
+                end = rng.choice(["full", "full", "abandon", "deactivated", "interrupt"])
+                if end != "full" and not (order == "during" and end == "interrupt"):
+                    rd["end"] = end
+                prog.append(rd)
+            progs.append(prog)
+        return {"kind": "openml", "sched_sem": True, "permits": rng.choice([1, 1, 2, 3]), "progs": progs, "seed": rng.below(2 ** 32),
+                "sched": {"mode": "rand"} if rng.chance(0.7) else {"mode": "pb", "switch": [rng.randint(0, 12) for _ in range(rng.randint(1, 4))]}}
+
     def gen_openml_case(self, rng, tier):
+        if rng.chance(0.5):
+            return self.gen_semsched_case(rng, tier)
         reads = []
         for _ in range(rng.choice([1, 2, 3, 4, 5])):
             rd = {"order": rng.wchoice([(20, "before"), (40, "during"), (15, "uncached"), (25, "network")]),
@@ -275,6 +334,8 @@ class C19(Property):
         return {"kind": "depth", "variant": "threads", "n": rng.choice([130, 150, 200, 300])}
 
     def generate(self, rng, tier):
+        if rng.chance(0.04):
+            return self.gen_semsched_case(rng, tier)
         r = rng.below(1000)
         if r < 1:
             return {"kind": "index", "keys": [rng.choice(["a", "b", "k%d" % rng.randint(0, 999), "openml_%06d_data" % rng.randint(1, 99999), rng.randint(0, 10 ** 6)])
@@ -293,6 +354,12 @@ class C19(Property):
 
     def search(self, rng, tier):
         r = rng.below(100)
+        if r >= 92:
+            return self.gen_semsched_case(rng, tier)
+        if r >= 80:
+            c = self.gen_sched_case(rng, tier, contention=True)
+            c["inner"] = "disk"
+            return c
         if r < 15:
             return self.gen_disk_case(rng, tier)
         if r < 18:
@@ -376,6 +443,21 @@ class C19(Property):
                 for bad in (None, "badfeat"):
                     cs.append({"kind": "glue", "what": "source-copy", "copy": cp, "first_read": first, "bad": bad})
         # more simultaneous readers of one slot than a signed byte can count, on the lock table the library allocates
+        # phase 4: the download semaphore under the scheduler (all read kinds x endings on 1 permit; the Lean example's programs)
+        for sw in (0, 2, 5, 9):
+            cs.append({"kind": "openml", "sched_sem": True, "permits": 1, "seed": sw, "sched": {"mode": "pb", "switch": [sw, 3, 4]},
+                       "progs": [[{"order": "uncached"}, {"order": "before"}], [{"order": "during"}], [{"order": "uncached", "end": "interrupt"}]]})
+            cs.append({"kind": "openml", "sched_sem": True, "permits": 2, "seed": sw, "sched": {"mode": "pb", "switch": [sw, 2, 6]},
+                       "progs": [[{"order": "uncached", "end": "abandon"}, {"order": "during"}], [{"order": "uncached", "end": "deactivated"}, {"order": "uncached"}],
+                                 [{"order": "during", "end": "abandon"}], [{"order": "uncached"}]]})
+        cs.append({"kind": "openml", "sched_sem": True, "permits": 1, "seed": 1, "sched": rnd, "progs": [[{"order": "during"}] * 3, [{"order": "during"}] * 3]})
+        # phase 4: DiskCacher write as open / chunks / close with a reader, a remover and a second writer running in between
+        for sw in range(7, 19):
+            cs.append({"kind": "sched", "inner": "disk", "keys": ["a"], "parts": 3, "seed": sw, "sched": {"mode": "pb", "switch": [sw, 4, 2]},
+                       "progs": [[[["gs", 0, 1], ["exit"]]], [[["gs", 0, 2], ["exit"]]], [[["rmv", 0]], [["gs", 0, None, 2]]]]})
+        for sw in (8, 10, 12):
+            cs.append({"kind": "sched", "inner": "disk", "keys": ["a"], "parts": 2, "seed": sw, "sched": {"mode": "pb", "switch": [sw, 3]},
+                       "progs": [[[["gs", 0, None, 1, "base"]], [["gs", 0, 4], ["raise", "KeyboardInterrupt"]]], [[["gs", 0, 2], ["exit"]]]]})
         cs.append({"kind": "depth", "variant": "nest", "n": 200})
         cs.append({"kind": "depth", "variant": "nest", "n": 128})
         cs.append({"kind": "depth", "variant": "threads", "n": 150})
@@ -472,8 +554,10 @@ class C19(Property):
             tags.append("rmv-while-reading")
         if any(o == "nested-write-refused:CobaException" for os_ in res["outcomes"] for o in os_):
             tags.append("nested-write-refused")
-        if any(o == "BodyBaseErr" for os_ in res["outcomes"] for o in os_):
+        if any(o.startswith("BodyBaseErr") for os_ in res["outcomes"] for o in os_):
             tags.append("body-base-exception")
+        if any(o == "BodyBaseErr:KeyboardInterrupt" for os_ in res["outcomes"] for o in os_):
+            tags.append("body-keyboard-interrupt")
         if res["base_raised"]:
             tags.append("getter-base-exception")
         if res.get("rmv_failed"):
@@ -573,6 +657,8 @@ class C19(Property):
                         fails.append(F("A", "wait-for edges of the waiting callers: implementation %s, model %s" % (res["wait_edges"], medges), "A:wait-edges"))
                 if res["unlocked_writes"]:
                     fails.append(F("A", "%d writes to the shared array outside the lock" % res["unlocked_writes"], "A:unlocked-write"))
+                if case.get("inner") == "disk" and not fails:
+                    self.check_disk_chunks(case, res, driver, idx, sees, fails, tags)
             # (C) the theorems' conclusions on the model's own final state
             if all(ans["terminal"]) and (any(x != 0 for x in ans["arr"]) or any(v != 0 for b in ans["book"] for v in b)):
                 fails.append(F("C", "model: all callers terminal but locks remain %s %s" % (ans["arr"], ans["book"]), "C:locks-released"))
@@ -616,6 +702,74 @@ class C19(Property):
         impl = {k: res[k] for k in ("status", "steps", "arr_keys", "locks", "cache", "outcomes", "received", "live")}
         impl["n_events"] = len(res["events"])
         return {"fails": fails, "nontrivial": nontrivial, "tags": tags, "impl": impl, "model": model}
+
+    def check_disk_chunks(self, case, res, driver, idx, sees, fails, tags):
+        """(A) at file level: the DiskCacher write as the real code performed it under the scheduler -- open, one chunk per line,
+        close, return, with the other threads' steps in between -- replayed through the Lean file-level system `dstep`"""
+        parts = int(case.get("parts", 2))
+        fevs = res.get("file_events", [])
+        comb, what = [], []
+        fi = 0
+        for n_, (t, e) in enumerate(res["events"]):
+            while fi < len(fevs) and fevs[fi][0] <= n_:
+                comb.append(fevs[fi][1:])
+                fi += 1
+            comb.append([t, ["base", e, sees[n_]]])
+        comb.extend(f[1:] for f in fevs[fi:])
+        sched, expect = [], []
+        n_chunk = n_close = n_open = between = 0
+        writers = {}
+        for t, e in comb:
+            if e[0] == "base":
+                sched.append([t, ["base"], bool(e[2])])
+                expect.append(["base", e[1]])
+                if writers and any(w != t for w in writers.values()):
+                    between += 1
+            elif e[0] == "chunk":
+                sched.append([t, ["chunk", e[2]], False])
+                expect.append(["chunk", e[1], e[2]])
+                n_chunk += 1
+                if not e[3]:
+                    fails.append(F("A", "DiskCacher wrote line %d of key %r but no file exists at that moment" % (e[2], case["keys"][e[1]]), "A:disk-chunk-no-file"))
+            elif e[0] == "close":
+                sched.append([t, ["close"], False])
+                expect.append(["close", e[1]])
+                n_close += 1
+                writers.pop(e[1], None)
+            elif e[0] == "open":
+                n_open += 1
+                writers[e[1]] = t
+                if e[2] == 0:
+                    tags.append("disk-file:zero-length-after-open")
+        creates = sum(1 for t, e in res["events"] if e[0] == "ccreate")
+        tags.append("disk-chunks:%s" % ("0" if n_chunk == 0 else "1-2" if n_chunk <= 2 else "3+"))
+        if between:
+            tags.append("disk-chunks:other-threads-ran-inside-the-write")
+        pops = sum(1 for t, e in res["events"] if e[0] == "cpop")
+        if res["status"] == "ok" and (n_close != n_open or n_chunk < parts * pops or n_open > creates):
+            fails.append(F("A", "file-level steps of DiskCacher writes: %d populates (%d completed) but %d opens, %d chunk writes (%d lines per entry), %d closes seen "
+                           "-- the write is not performed as open / line by line / close" % (creates, pops, n_open, n_chunk, parts, n_close), "A:disk-chunk-steps"))
+            return
+        ans = driver.ask({"op": "dreplay", "idx": idx, "parts": parts, "sched": sched,
+                          "progs": [[[lean_instr(i) for i in seg] for seg in p] for p in case["progs"]]})
+        got = [[m[0], m[1]] if m[0] == "base" else m for m in ans["events"]]
+        if ans["stuck"] is not None or got != expect:
+            i = ans["stuck"] if ans["stuck"] is not None else next(i for i in range(len(expect)) if i >= len(got) or got[i] != expect[i])
+            fails.append(F("A", "file-level step %d (thread %s): implementation did %s, which is not what the model does there (%s; model's enabled [base, close, chunks] per caller %s); steps before: %s"
+                           % (i, sched[i][0] if i < len(sched) else "-", expect[i] if i < len(expect) else None, got[i] if i < len(got) else "no step",
+                              ans.get("nextActs"), json.dumps(expect[max(0, i - 5):i])), "A:disk-chunk-trace:%s" % (expect[i][0] if i < len(expect) else "none")))
+            return
+        full = ["complete", list(range(parts))]
+        for m in ans["events"]:
+            if m[0] == "base" and m[1][0] == "cget" and m[2] != full:
+                fails.append(F("C", "model: a cget found %s on disk" % m[2], "C:chunked-no-partial-read"))
+        if not ans["dinv"]:
+            fails.append(F("C", "model: files and cache disagree at the end: %s %s" % (ans["files"], ans["cache"]), "C:chunked-files-consistent"))
+        if res["status"] == "ok":
+            mfiles = [None if f[0] == "absent" else f[0] for f in ans["files"]]
+            ifiles = [None if c is None else "closed" for c in res["cache"]]
+            if mfiles != ifiles:
+                fails.append(F("A", "files at the end: implementation %s, model %s" % (ifiles, ans["files"]), "A:disk-final-files"))
 
     def eval_disk(self, case, driver):
         fails, tags = [], []
@@ -770,7 +924,96 @@ class C19(Property):
             fails.append(F("A", "key -> slot: implementation %s, model (16-bit blake2b of str(key)) %s" % (o["here"], o["expected"]), "A:index"))
         return {"fails": fails, "nontrivial": True, "tags": tags, "impl": o, "model": {"expected": o["expected"]}}
 
+    def eval_openml_sched(self, case, driver):
+        """the download semaphore under the controlled scheduler; (A) against the Lean interleaving system `sstep`"""
+        o = R.run_openml_sched(case)
+        fails = []
+        progs = case["progs"]
+        tags = ["openml-semaphore", "openml:scheduled", "openml-permits:%d" % o["permits0"], "sem-threads:%d" % len(progs)]
+        for p in progs:
+            for rd in p:
+                tags.append("sem-read:%s/%s" % (rd["order"], rd.get("end", "full")))
+        where = "%d scheduled OpenmlSource readers %s on a %d-permit semaphore" % (
+            len(progs), json.dumps([[rd["order"] + ("/" + rd["end"] if rd.get("end") else "") for rd in p] for p in progs]), o["permits0"])
+        kinds = {}
+        for t, e in o["events"]:
+            kinds[e[0]] = kinds.get(e[0], 0) + 1
+        if kinds.get("wait"):
+            tags.append("sem-ev:wait")
+        if o["status"] == "hang":
+            fails.append(F("B", "%s: readers %s wait forever in acquire() -- %d of %d permits are free and nobody holding one is running"
+                           % (where, o["live"], o["free"], o["permits0"]), "openml-reader-waits-forever"))
+        elif o["status"] != "ok":
+            fails.append(F("B", "%s: run did not terminate: %s after %d steps" % (where, o["status"], o["steps"]), "no-termination:" + o["status"]))
+        else:
+            if o["free"] < o["permits0"]:
+                fails.append(F("B", "%s: all readers have finished but only %d of %d permits are free (events %s)"
+                               % (where, o["free"], o["permits0"], json.dumps(o["events"][-8:])), "openml-semaphore-permit-leaked"))
+            if o["array_nonzero"]:
+                fails.append(F("B", "%s: cacher locks remain %s" % (where, o["array_nonzero"]), "array-nonzero-after-exit"))
+            exp = [["rows:3" if rd.get("end", "full") == "full" else "abandoned" if rd["end"] == "abandon" else
+                    "KeyboardInterrupt" if rd["end"] == "interrupt" and rd["order"] == "uncached" else
+                    "raised:CobaException" if rd["end"] == "deactivated" else "rows:3" for rd in p] for p in progs]
+            if o["results"] != exp and not fails:
+                fails.append(F("B", "%s: reads ended %s, expected %s" % (where, o["results"], exp), "openml-read-failed"))
+        if o["over"] or o["free"] > o["permits0"]:
+            fails.append(F("B", "%s: a permit was released that had not been acquired: %d free of %d -- later more than %d readers download at once"
+                           % (where, o["free"], o["permits0"], o["permits0"]), "openml-semaphore-over-released"))
+        model = None
+        if driver is not None and not fails:
+            def steps(rd):
+                if rd["order"] == "before":
+                    return ["cachedRead", "noRelease"]
+                if rd["order"] == "during":
+                    return ["request", "acquire", "releaseEarly", "noRelease"]
+                return ["request", "acquire", "enterDownload", "done" if rd.get("end", "full") == "full" else "raised", "release"]
+            pend = [[x for rd in p for x in steps(rd)] for p in progs]
+            vis = ("acquire", "releaseEarly", "release")
+            sched, expect = [], []
+            for t, e in o["events"]:
+                while pend[t] and pend[t][0] not in vis:
+                    sched.append(t)
+                    expect.append(pend[t].pop(0))
+                sched.append(t)
+                if e[0] == "wait":
+                    expect.append("wait")
+                elif pend[t]:
+                    expect.append(pend[t].pop(0))
+                else:
+                    expect.append(None)
+            for t in range(len(progs)):
+                while pend[t] and pend[t][0] not in vis:
+                    sched.append(t)
+                    expect.append(pend[t].pop(0))
+            ans = driver.ask({"op": "semsys", "permits": o["permits0"], "sched": sched,
+                              "progs": [[[rd["order"] == "before", rd["order"] in ("before", "during"), rd.get("end", "full") != "full"] for rd in p] for p in progs]})
+            model = {"events": len(ans["events"]), "stuck": ans["stuck"], "free": ans["free"], "terminal": ans["terminal"]}
+            mvis = [[m[0] if m[0] != "releaseEarly" else "release", m[1]] for m in ans["events"] if m[0] in ("acquire", "wait", "releaseEarly", "release")]
+            ivis = [[e[0], e[1]] for t, e in o["events"]]
+            if ans["stuck"] is not None or mvis != ivis:
+                i = next((i for i in range(max(len(mvis), len(ivis))) if (mvis[i] if i < len(mvis) else None) != (ivis[i] if i < len(ivis) else None)), None)
+                fails.append(F("A", "%s: semaphore trace [event, free permits]: implementation %s, model %s (first difference at %s, model stuck %s)"
+                               % (where, json.dumps(o["events"][:14]), json.dumps(mvis[:14]), i, ans["stuck"]), "A:openml-semaphore-trace"))
+            elif [m[0] for m in ans["events"]] != expect:
+                fails.append(F("A", "%s: model steps %s, expected from the read kinds %s" % (where, [m[0] for m in ans["events"]][:20], expect[:20]), "A:openml-semaphore-steps"))
+            else:
+                if o["status"] == "ok" and (ans["free"] != o["free"] or not ans["terminal"]):
+                    fails.append(F("A", "%s: at the end implementation has %d free permits, model %d (terminal %s)" % (where, o["free"], ans["free"], ans["terminal"]),
+                                   "A:openml-semaphore"))
+                mh = max([m[2] for m in ans["events"]] + [0])
+                md = min(mh, o["permits0"])     # semaphore_never_exceeds_permits: downloads ≤ holders ≤ permits
+                if o["max_holders"] != mh or o["max_downloads"] > md or o["no_permit_download"] or o["foreign_release"]:
+                    fails.append(F("A", "%s: most simultaneous permit holders %d (model %d), simultaneous downloads %d (model bound %d), downloads without a permit %d, "
+                                   "releases by a non-holder %d" % (where, o["max_holders"], mh, o["max_downloads"], md, o["no_permit_download"], o["foreign_release"]),
+                                   "A:openml-semaphore-holders"))
+                # (C) semaphore_never_exceeds_permits / semaphore_all_released on the model's own run
+                if any(m[1] + m[2] != o["permits0"] or m[3] > m[2] for m in ans["events"]) or (ans["terminal"] and ans["free"] != o["permits0"]):
+                    fails.append(F("C", "model: permit accounting violated along %s" % ans["events"][:12], "C:semaphore-bound"))
+        return {"fails": fails, "nontrivial": bool(kinds.get("wait")) or o["max_holders"] >= 2, "tags": tags, "impl": {k: v for k, v in o.items() if k != "events"}, "model": model}
+
     def eval_openml(self, case, driver):
+        if case.get("sched_sem"):
+            return self.eval_openml_sched(case, driver)
         if case.get("threads"):
             o = R.run_openml_threads(case)
             fails, tags = [], ["openml-semaphore", "openml:threads-waiting", "openml-permits:%d" % o["permits0"]]
